@@ -98,8 +98,15 @@ var rawClientDeviations = []string{
 	"window_overrun", "empty_method", "no_slash_method", "unknown_method", "rev2", "rev_negative",
 	"window_update_zero", "window_update_huge", "dup_frame", "drop_frame", "swap_frames",
 	"frames_after_cancel", "data_after_half_close", "cancel_mid", "unary_two_requests", "unary_no_request",
-	"half_close_twice", "new_stream_no_md",
+	"half_close_twice", "new_stream_no_md", "size_huge",
 }
+
+// hugeDeclared: the smallest message size a "size_huge" envelope announces; allocBound is what a
+// run may allocate in total before the monitor says the announced size (not the data) was buffered.
+const (
+	hugeDeclared = 1 << 30
+	allocBound   = 512 << 20
+)
 
 // applyDeviation mutates the conversation; it returns the name of a tunnel-level violation it introduced ("" if none).
 func applyDeviation(t *rapid.T, label, kind string, streams []*convStream, rpcs []RPC, nextID *int64) string {
@@ -131,6 +138,9 @@ func applyDeviation(t *rapid.T, label, kind string, streams []*convStream, rpcs 
 		return ix
 	}
 	insert := func(at int, f RawFrame) {
+		if at > len(st.frames) {
+			at = len(st.frames)
+		}
 		st.frames = append(st.frames[:at], append([]RawFrame{f}, st.frames[at:]...)...)
 	}
 	switch kind {
@@ -183,6 +193,15 @@ func applyDeviation(t *rapid.T, label, kind string, streams []*convStream, rpcs 
 		for _, i := range dataIdx() {
 			if st.frames[i].Kind == "msg" {
 				st.frames[i].Size += uint32(pos("extra", 1, 5000))
+				mark(0, "")
+				return ""
+			}
+		}
+	case "size_huge":
+		// an envelope announcing gigabytes, followed by the little data the script really has
+		for _, i := range dataIdx() {
+			if st.frames[i].Kind == "msg" {
+				st.frames[i].Size = uint32(rapid.SampledFrom([]int{hugeDeclared, 2 * hugeDeclared, 3 * hugeDeclared}).Draw(t, label+".size"))
 				mark(0, "")
 				return ""
 			}
